@@ -56,6 +56,12 @@ func emptyDir(dir string) {
 func c06DiskOracle(c c18Case) error {
 	root, done := scratchDir("c6d")
 	defer done()
+	// Every module lies below the directory whose states are compared (a module created
+	// directly under the file system root would survive emptyDir and belong to no state).
+	c.L.Modules = append([]LModule(nil), c.L.Modules...)
+	for i := range c.L.Modules {
+		c.L.Modules[i].Top = false
+	}
 	seen := filepath.Join(root, "seen0") // the directory that is scanned in every state
 	if err := os.MkdirAll(seen, 0o755); err != nil {
 		return fmt.Errorf("HARNESS: %v", err)
